@@ -26,12 +26,13 @@ from symv.symarray import SymArray, cells
 from . import dailyframe as F
 from . import dailyref as R
 
+A_LAYOUTS_DOC = "one sub-model / weekday+weekend / two seasons; present days share one symbolic temperature"
 EXPLANATION = "C06: (a) daily predict index/finiteness around DST; (b) hourly 24-slot normalisation and its inverse with symbolic features/predictions."
 ZONES_QUICK = ["US/Pacific", "Europe/London", "Australia/Sydney", "America/Santiago", "America/Havana", "America/St_Johns"]
 ZONES_THOROUGH = ZONES_QUICK + ["US/Eastern", "Europe/Berlin", "Pacific/Auckland", "Asia/Tehran", "Africa/Casablanca", "America/Sao_Paulo",
                                 "Asia/Amman", "Asia/Beirut", "America/Asuncion", "Australia/Adelaide", "Asia/Kolkata", "UTC"]
-BOUNDS = {"quick": dict(zones=ZONES_QUICK, years=[2021], days_around_transition=3, daily_rows=4),
-          "thorough": dict(zones=ZONES_THOROUGH, years="2000-2037 for (b), 2019-2023 for (a)", days_around_transition=3, daily_rows=5)}
+BOUNDS = {"quick": dict(zones=ZONES_QUICK, years=[2021], days_around_transition=3, daily_rows=5, daily_layouts=A_LAYOUTS_DOC),
+          "thorough": dict(zones=ZONES_THOROUGH, years="2000-2037 for (b), 2019-2023 for (a)", days_around_transition=3, daily_rows=6, daily_layouts=A_LAYOUTS_DOC)}
 STUBS = ["minimal HourlyModel instance (object.__new__ + _ts_feature_norm/_categorical_features/is_fitted): no sklearn in the encoded functions",
          "numba kernels de-jitted for (a)"]
 MODELS_USED = ["symreal ExtensionArray", "object ndarray of proxies"]
@@ -39,7 +40,8 @@ ASSUMPTIONS = ["IANA database (pytz) and pandas tz arithmetic are executed, not 
                "hourly predictions finite on every row: outside the claim (sklearn ElasticNet/scalers)",
                "zones whose offset changes by a fraction of an hour are outside (b): the hourly data class only accepts on-the-hour stamps"]
 EXPECTED_REGIMES = ["23-hour day", "25-hour day", "transition at local midnight", "daily index across DST", "non-finite (inf) cell in the reporting frame",
-                    "temperature-only reporting data (usage column all NaN)"]
+                    "temperature-only reporting data (usage column all NaN)", "model with several sub-models and a gap in the reporting frame",
+                    "calendar day absent before the transition day"]
 
 
 def ENCODED():
@@ -85,6 +87,16 @@ def hourly_index(zone, date, days=3, before=1):
     return idx[np.array(keep)]
 
 
+def span_index(zone, date, before):
+    """before = position of the transition day in a 3-day span, or "skip": 4 days with the transition day third and
+    the day before it absent from the calendar (a zone that skipped a date, e.g. Pacific/Apia 2011-12-30, or a removed day)"""
+    if before != "skip":
+        return hourly_index(zone, date, before=before)
+    idx = hourly_index(zone, date, days=4, before=2)
+    gone = dt.date.fromisoformat(date) - dt.timedelta(days=1)
+    return idx[np.array([t.date() != gone for t in idx])]
+
+
 def expected_slots(idx):
     """independent oracle from the wall clock: per local date, list of 24 slot descriptors:
     ('hour', i) real stamp i ; ('mean', i, j) mean of stamps i and j"""
@@ -119,9 +131,9 @@ def run_b(case: Case, zone, tier):
         case.ground(True, "zone without DST: nothing to normalise")
         return
     # the transition day is the middle, the first and the last day of the span
-    work = [(d, b) for d in trs for b in ((1, 0, 2) if (tier == "quick" or d[:4] in ("2021", "2011")) else (1,))]
+    work = [(d, b) for d in trs for b in ((1, 0, 2, "skip") if (tier == "quick" or d[:4] in ("2021", "2011")) else (1,))]
     for date, before in work:
-        idx = hourly_index(zone, date, before=before)
+        idx = span_index(zone, date, before)
         n = len(idx)
         days, by_date, slots = expected_slots(idx)
         D = len(days)
@@ -165,6 +177,7 @@ def run_b(case: Case, zone, tier):
                 continue
             dst, X, out, usage = p.value
             case.regime("temperature-only reporting data (usage column all NaN)", usage == "absent")
+            case.regime("calendar day absent before the transition day", before == "skip")
             case.regime("23-hour day", 23 in lens)
             case.regime("25-hour day", 25 in lens)
             if midnight:
@@ -228,7 +241,7 @@ def usage_column(idx, date, usage):
 def replay_dst(inp):
     """concrete float run of the three functions: returns (bad, detail)"""
     zone, date = inp["zone"], inp["date"]
-    idx = hourly_index(zone, date, before=inp.get("before", 1))
+    idx = span_index(zone, date, inp.get("before", 1))
     n = len(idx)
     rng = np.random.default_rng(0)
     fv = rng.normal(size=n)
@@ -277,10 +290,13 @@ def daily_index(zone, date, n):
     return pd.date_range(d0.isoformat(), periods=n, freq="D", tz=zone)
 
 
+A_LAYOUTS = ["single", "wdwe-flat", "season"]
+
+
 def run_a(case: Case, zone, tier):
-    n = 5 if tier == "thorough" else 4
+    n = 6 if tier == "thorough" else 5
     trs = transitions(zone, _years(tier, "a")) or ["2021-06-15"]
-    case.inputs = [z3.Real(f"T{i}") for i in range(n)] + [z3.Real(f"o{i}") for i in range(n)]
+    case.inputs = [z3.Real("T0")] + [z3.Real(f"o{i}") for i in range(n)]
     for date in trs:
         try:
             idx = daily_index(zone, date, n)
@@ -290,13 +306,15 @@ def run_a(case: Case, zone, tier):
         case.regime("daily index across DST", len(set(t.utcoffset() for t in idx)) > 1)
         for with_obs in (True, False):
             def run():
-                m = F.model("single", tz=zone)
-                # missing / non-finite state symbolic on two designated rows, values symbolic everywhere
+                lay = F.choose("layout", A_LAYOUTS)
+                m = F.model(lay, tz=zone)
+                # missing / non-finite state symbolic on two designated rows; the present days share one symbolic
+                # temperature (index and finiteness are the subject here, and each own symbol forks 3 ways per row)
                 T, ts = [], []
                 for i in range(n):
                     st = F.choose(f"T_state{i}", ["val", "nan", "inf"]) if i in (1, n - 1) else "val"
                     ts.append(st)
-                    T.append(real(f"T{i}") if st == "val" else float(st))
+                    T.append(real("T0") if st == "val" else float(st))
                 cols = {"temperature": SymArray(T)}
                 os_ = None
                 if with_obs:
@@ -307,7 +325,7 @@ def run_a(case: Case, zone, tier):
                         O.append(real(f"o{i}") if st == "val" else float(st))
                     cols["observed"] = SymArray(O)
                 df = pd.DataFrame(cols, index=idx)
-                return ts, os_, m._predict(df)
+                return lay, ts, os_, m._predict(df)
 
             with R.symbolic_daily():
                 paths = case.explore(run)
@@ -315,8 +333,8 @@ def run_a(case: Case, zone, tier):
                 if p.outcome != "ret":
                     case.rep["harness_errors"].append(f"unexpected exception in _predict ({zone} {date}): {p.value!r}")
                     continue
-                ts, os_, out = p.value
-                rp = ("daily", (lambda st: lambda mdl: dict(zone=zone, date=date, n=n, env=model_env(mdl, case.inputs), ts=st[0], os=st[1]))((ts, os_)))
+                lay, ts, os_, out = p.value
+                rp = ("daily", (lambda st: lambda mdl: dict(zone=zone, date=date, n=n, layout=st[2], env=model_env(mdl, case.inputs), ts=st[0], os=st[1]))((ts, os_, lay)))
                 same = len(out) == n and all(a == b for a, b in zip(out.index, idx)) and out.index.is_monotonic_increasing \
                     and str(out.index.tz) == str(idx.tz)
                 case.prove(p, bool(same), "output index == input index (no row dropped, duplicated or shifted; chronological)", replay=rp)
@@ -327,12 +345,15 @@ def run_a(case: Case, zone, tier):
                     want = ts[i] == "val" and (os_ is None or os_[i] == "val")
                     case.prove(p, F.finite(pred[i]) == want, "predicted finite exactly on rows with temperature (and usage when supplied)", replay=rp)
                 case.regime("non-finite (inf) cell in the reporting frame", "inf" in ts or (os_ is not None and "inf" in os_))
+                case.regime("model with several sub-models and a gap in the reporting frame", lay != "single" and ("nan" in ts or (os_ is not None and "nan" in os_)))
 
 
 def replay_daily(inp):
     idx = daily_index(inp["zone"], inp["date"], inp["n"])
-    df = F.float_frame(idx, inp["env"], inp["ts"], inp["os"])
-    m = F.model("single", tz=inp["zone"])
+    env = dict(inp["env"])
+    env.update({f"T{i}": env.get("T0", 0.0) for i in range(inp["n"])})
+    df = F.float_frame(idx, env, inp["ts"], inp["os"])
+    m = F.model(inp.get("layout", "single"), tz=inp["zone"])
     out = m._predict(df.copy())
     pr = []
     if len(out) != len(idx) or not all(a == b for a, b in zip(out.index, idx)):
@@ -341,7 +362,7 @@ def replay_daily(inp):
         for i, t in enumerate(idx):
             want = np.isfinite(df["temperature"].iloc[i]) and (inp["os"] is None or np.isfinite(df["observed"].iloc[i]))
             if bool(np.isfinite(out["predicted"].iloc[i])) != bool(want):
-                pr.append(f"{t}: predicted {out['predicted'].iloc[i]}")
+                pr.append(f"{t}: predicted {out['predicted'].iloc[i]} (temperature {df['temperature'].iloc[i]}, layout {inp.get('layout', 'single')})")
     return bool(pr), "; ".join(pr[:4])
 
 
